@@ -96,6 +96,66 @@ theorem Rel.recStr (t : Task) : Rel (recStr r t) (recStr r' t) := by
   unfold Rsj.Eval.recStr
   rel_all hle hrec
 
+omit hle in
+theorem Rel.objectMember (env : EId) (d : Nat) (layer : Layer) (m : Members) :
+    Rel (objectMember r env d layer m) (objectMember r' env d layer m) := by
+  unfold Rsj.Eval.objectMember
+  rel_all hle hrec
+
+omit hle in
+theorem Rel.sliceArg (env : EId) (d : Nat) (x : OptExpr) :
+    Rel (sliceArg r env d x) (sliceArg r' env d x) := by
+  unfold Rsj.Eval.sliceArg
+  rel_all hle hrec
+
+omit hle in
+theorem Rel.std_length (t : TId) (d1 : Nat) : Rel (std_length r t d1) (std_length r' t d1) := by
+  unfold Rsj.Eval.std_length
+  rel_all hle hrec
+
+omit hle in
+theorem Rel.std_type (t : TId) (d1 : Nat) : Rel (std_type r t d1) (std_type r' t d1) := by
+  unfold Rsj.Eval.std_type
+  rel_all hle hrec
+
+omit hle in
+theorem Rel.std_trace (t0 t1 : TId) (d1 : Nat) : Rel (std_trace r t0 t1 d1) (std_trace r' t0 t1 d1) := by
+  unfold Rsj.Eval.std_trace
+  rel_all hle hrec
+
+omit hle in
+theorem Rel.std_objectHasEx (t0 t1 t2 : TId) (d1 : Nat) : Rel (std_objectHasEx r t0 t1 t2 d1) (std_objectHasEx r' t0 t1 t2 d1) := by
+  unfold Rsj.Eval.std_objectHasEx
+  rel_all hle hrec
+
+omit hle in
+theorem Rel.std_objectFieldsEx (t0 t1 : TId) (d1 : Nat) : Rel (std_objectFieldsEx r t0 t1 d1) (std_objectFieldsEx r' t0 t1 d1) := by
+  unfold Rsj.Eval.std_objectFieldsEx
+  rel_all hle hrec
+
+omit hle in
+theorem Rel.std_map (t0 t1 : TId) (d1 : Nat) : Rel (std_map r t0 t1 d1) (std_map r' t0 t1 d1) := by
+  unfold Rsj.Eval.std_map
+  rel_all hle hrec
+
+omit hle in
+theorem Rel.std_makeArray (t0 t1 : TId) (d1 : Nat) : Rel (std_makeArray r t0 t1 d1) (std_makeArray r' t0 t1 d1) := by
+  unfold Rsj.Eval.std_makeArray
+  rel_all hle hrec
+
+omit hle in
+theorem Rel.builtinCall (b : Builtin) (ts : List TId) (d1 : Nat) : Rel (builtinCall r b ts d1) (builtinCall r' b ts d1) := by
+  unfold Rsj.Eval.builtinCall
+  rel_all hle hrec
+  all_goals first
+    | exact Rel.std_length hrec _ _
+    | exact Rel.std_type hrec _ _
+    | exact Rel.std_trace hrec _ _ _
+    | exact Rel.std_objectHasEx hrec _ _ _ _
+    | exact Rel.std_objectFieldsEx hrec _ _ _
+    | exact Rel.std_map hrec _ _ _
+    | exact Rel.std_makeArray hrec _ _ _
+
 theorem Rel.wantThunk (t : TId) (d : Nat) :
     Rel (wantThunk { maxStack := s } r t d) (wantThunk { maxStack := s' } r' t d) := by
   unfold Rsj.Eval.wantThunk
@@ -157,6 +217,9 @@ theorem Rel.step (t : Task) :
     | exact Rel.wantField hle hrec _ _ _
     | exact Rel.wantSuperField hle hrec _ _ _
     | exact Rel.recStr hrec _
+    | exact Rel.objectMember hrec _ _ _ _
+    | exact Rel.sliceArg hrec _ _ _
+    | exact Rel.builtinCall hrec _ _ _
 end
 
 /-- The whole evaluator under limits `s ≤ s'`, same fuel. -/
